@@ -28,7 +28,7 @@ ASSUMPTIONS = ['failpoints sit at python-level step boundaries; a crash inside o
                'a hung pool after a dead worker is killed by the watchdog and judged on the files it left (no liveness claim)',
                'the clean run must report success, otherwise the case is inconclusive']
 MIN_NONTRIVIAL = {'quick': 50, 'thorough': 1500}
-REQUIRED_MONITORS = ['trace:steps_recorded', 'fault:fired', 'fault:raise', 'fault:exit', 'fault:kill', 'fault:persistent', 'history:stale_success_of_earlier_run', 'fault:class:OSError', 'fault:class:RuntimeError', 'oracle:status_read', 'oracle:success_verified',
+REQUIRED_MONITORS = ['trace:steps_recorded', 'fault:fired', 'fault:raise', 'fault:exit', 'fault:kill', 'fault:persistent', 'history:stale_success_of_earlier_run', 'layout:more_than_100_small_contigs', 'fault:class:OSError', 'fault:class:RuntimeError', 'oracle:status_read', 'oracle:success_verified',
                      'clean:success', 'pipeline:single', 'pipeline:multi', 'fault:in_worker']
 SHARD_TIMEOUT = {'quick': 1200, 'thorough': 14400}
 SUCCESS = 'Reached end. All ok!'
@@ -45,6 +45,9 @@ def gen_cases(tier, seed):
         nsh = 4 if tier == 'quick' else 16
         for part in range(nsh):
             cases.append({'cfg': ci, 'method': method, 'multi': multi, 'size': size, 'part': part, 'parts': nsh, 'seed': seed, 'tier': tier})
+    # an assembly with far more than a hundred small contigs that carry reads (one shared worker job): the fault-free run and a few faults
+    for k, method in enumerate(('nla', 'chic') if tier == 'thorough' else (('nla', 'chic')[seed % 2],)):
+        cases.append({'cfg': 90 + k, 'method': method, 'multi': True, 'size': 3, 'part': 0, 'parts': 1, 'seed': seed, 'tier': tier, 'many_contigs': True})
     return cases
 
 
@@ -122,8 +125,11 @@ def run_case(case):
     r = rng(case['seed'], 'C20', case['cfg'])
     method, multi = case['method'], case['multi']
     contigs = [('chr1', 120000), ('chr2', 30000), ('chr3', 8000)][:1 + case['size']] if multi else [('chr1', 20000), ('chr2', 9000)][:1 + min(case['size'], 1)]
-    gen, recs, truths = F.simulate_library(r, method=method, contigs=contigs, n_cells=2, n_sites=[2, 4, 8][case['size']], umis_per_site=(1, 2),
-                                           copies=(1, 2), case_id=900 + case['cfg'], n_unmapped=[0, 1, 3][case['size']],
+    if case.get('many_contigs'):
+        contigs = [('chr1', 120000)] + [(f'scaffold_{j}', 4000) for j in range(r.choice([120, 160]))]
+        acc.count('layout:more_than_100_small_contigs')
+    gen, recs, truths = F.simulate_library(r, method=method, contigs=contigs, n_cells=2, n_sites=[2, 4, 8, 450][case['size']], umis_per_site=(1, 2),
+                                           copies=(1, 2), case_id=900 + case['cfg'], n_unmapped=[0, 1, 3, 3][case['size']],
                                            p_invalid=0.1 if method == 'nla' else 0)
     expect = Counter()
     for rec in recs:
@@ -204,6 +210,9 @@ def run_case(case):
                 mine.insert(0, spec_)
                 forced_stale.add(spec_)
         hung_budget = (1 if case['part'] == 0 else 0) if case['tier'] == 'quick' else 4
+        if case.get('many_contigs'):
+            mine = [x for x in mine if x[1] in ('raise', 'kill')][:4]
+            hung_budget = 0
         for (proc, stepname, occ, when), kind in mine:
             in_worker = proc != 'main'
             if in_worker and kind == 'exit':
